@@ -10,10 +10,12 @@ package transport
 // total) were handed to the connection successfully, lastid[t] is the packet
 // id of the last one, connack_* the content of the last CONNACK, nnodup the
 // number of PUBLISH packets sent without the DUP flag, npubq the number of
-// PUBLISH packets with QoS > 0.
+// PUBLISH packets with QoS > 0, sentseq[k] the packet object handed over as
+// the k-th one (k counted by nsentall).
 //
 //@ ghost nsent map[int]int
 //@ ghost nsentall int
+//@ ghost sentseq map[int]int
 //@ ghost lastid map[int]int
 //@ ghost connack_sp bool
 //@ ghost connack_code int
@@ -30,8 +32,9 @@ package transport
 //@   ensures [noconnack] !(err == nil && istype(pkt, *packet.Connack)) ==> (connack_sp <==> old(connack_sp)) && connack_code == old(connack_code)
 //@   ensures [dup]       nnodup == old(nnodup) + (err == nil && istype(pkt, *packet.Publish) && !as(pkt, *packet.Publish).Dup ? 1 : 0)
 //@   ensures [pubq]      npubq == old(npubq) + (err == nil && istype(pkt, *packet.Publish) && as(pkt, *packet.Publish).Message.QOS > 0 ? 1 : 0)
-//@   ensures [fail]      err != nil ==> nsent == old(nsent) && nsentall == old(nsentall) && lastid == old(lastid)
-//@   modifies nsent, nsentall, lastid, connack_sp, connack_code, nnodup, npubq
+//@   ensures [seq]       err == nil ==> sentseq[old(nsentall)] == as(pkt, *packet.Publish) && forall j int {sentseq[j]} :: j != old(nsentall) ==> sentseq[j] == old(sentseq[j])
+//@   ensures [fail]      err != nil ==> nsent == old(nsent) && nsentall == old(nsentall) && lastid == old(lastid) && sentseq == old(sentseq)
+//@   modifies nsent, nsentall, lastid, connack_sp, connack_code, nnodup, npubq, sentseq
 //
 // A received packet is one of the 14 packet types and satisfies what the
 // decoders guarantee (C02): ids are non-zero where required, QoS <= 2.
